@@ -60,6 +60,8 @@ func c18Profile() *profile {
 			"preset_stateid_seqid":   3,
 			"preset_slot":            1,
 			"illegal_op":             2,
+			"too_many_ops":           3,
+			"max_ops":                2,
 		}),
 		oracle:   map[string]bool{"acct": true},
 		parkPct:  35,
@@ -119,6 +121,8 @@ func c19Profile() *profile {
 			"preset_slot":           4,
 			"preset_stateid_seqid":  2,
 			"illegal_op":            4,
+			"too_many_ops":          5,
+			"max_ops":               2,
 		}),
 		oracle:   map[string]bool{"acct": true},
 		parkPct:  50,
